@@ -464,6 +464,9 @@ def main():
         run.dist("family/profile/lineage", (job["fam"], job["profile"], job["lineage"]))
         for rec in res["trace"]:
             run.dist("operation", rec["op"][0] + (" (skipped)" if rec.get("skipped") else ""))
+            if "to_dict_shared" in rec:
+                run.dist("informational, beyond the statement: to_dict() outputs containing a container the model keeps",
+                         (job["fam"], "shared" if rec["to_dict_shared"] else "independent"))
             if rec["op"][0] == "predict":
                 o = L.OBJ[rec["dataset"]]
                 run.dist("predict span/observed/ghi", (o["span"], "obs" if o["observed"] else "no obs", "ghi" if o["ghi"] else "-"))
